@@ -47,6 +47,22 @@ def _expected(call, events):
         return "SKIP"
     return "SKIP"
 
+def _variants(rng):
+    """every request method with typical arguments; methods whose exchange depends on their arguments once per branch"""
+    out = []
+    for m in S.ALL_REQUESTS:
+        if m == "motors_on":
+            for a in ((0, rng.randint(1, 5)), (rng.randint(1, 5), 0), (3, 3), (1, 4), (0, 0), (-2, 2)):
+                out.append((m, ("motors_on",) + a))
+        elif m == "pause":
+            for n in (rng.randint(1, 750), 1600, 0):
+                out.append((m, ("pause", n)))
+        elif m == "write_nick":
+            out += [(m, ("write_nick", "Bot")), (m, ("write_nick", "  "))]
+        else:
+            out.append((m, S.sample_call(m, rng)))
+    return out
+
 def generate(rng, tier):
     cases = []
     pre_calls = [("connect", S.GOOD_PORTS, None)]; pre_ev = S.connect_script()
@@ -56,8 +72,7 @@ def generate(rng, tier):
     # 1. systematic: every method, a fault / error line / wrong name / silence at every I/O position of its nominal exchange
     reps = 1 if tier == "quick" else 3
     for _ in range(reps):
-        for m in S.ALL_REQUESTS:
-            c = S.sample_call(m, rng)
+        for m, c in _variants(rng):
             nom = S.nominal(c, rng)
             add([c], [nom], "clean/%s" % m, [_expected(c, nom)])
             for i in range(len(nom)):
